@@ -26,7 +26,8 @@ def U26 : Universe :=
 /-- `loop.switch(handle0)`, then a start whose first frame requests `switch(handle0, clear_next=True)` -/
 def ops26 : List Op :=
   [.switch 0 false false,
-   .start [⟨3, [.switch 0 false true]⟩, ⟨5, [.none]⟩, ⟨6, [.raiseQuit]⟩]]
+   .start [⟨3, 3, [.user (.switch 0 false true)]⟩, ⟨5, 5, [.user .none]⟩,
+     ⟨6, 6, [.user .raiseQuit]⟩]]
 
 def hasSwitchIn (log : List Entry) : Bool :=
   log.any fun
